@@ -7,3 +7,5 @@ package ed25519
 const verifHooks = false
 
 func verifNoteFallback(offset, size int) {}
+
+func verifNoteRemainder(offset, size int) {}
